@@ -74,6 +74,13 @@ def write_evidence(prop, tier, seed, level, results, wall, extra, nviol):
         "workload_stats": dict(sorted(stats.items())),
         "real_vs_stub": real_vs_stub(prop),
     }
+    cells = [k for k in stats if k.startswith("cell:")]
+    if cells:
+        cov["cells_covered"] = len(cells)
+        cov["runs_per_cell_min"] = min(stats[k] for k in cells)
+        for k in list(cov["workload_stats"]):
+            if k.startswith("cell"):
+                del cov["workload_stats"][k]
     cov.update(extra)
     ev = {
         "property_id": prop, "tier": tier, "seed": int(seed), "level": level,
@@ -142,8 +149,11 @@ def run_check(prop, tier):
     for sig, rs in list(by_sig.items())[:8]:
         r0 = rs[0]
 
-        def run(tp):
-            return runner.execute(prop, workload, replay=tp, params=params)
+        rparams = dict(params)
+        rparams["run_index"] = r0["i"]
+
+        def run(tp, rparams=rparams):
+            return runner.execute(prop, workload, replay=tp, params=rparams)
 
         best, final, nex = shrink.shrink(
             run, r0["tape"], sig,
@@ -152,7 +162,7 @@ def run_check(prop, tier):
         rp = {
             "property": prop, "tier": tier, "root_seed": seed,
             "run_index": r0["i"], "derived_seed": r0["seed"],
-            "workload": wl_name, "params": params,
+            "workload": wl_name, "params": rparams,
             "tape": final["tape"], "original_tape_len": len(r0["tape"]),
             "shrink_executions": nex,
             "expected_violation": final["violation"],
